@@ -14,7 +14,9 @@ import (
 	"sync"
 	"time"
 
+	"github.com/DataDog/sketches-go/ddsketch"
 	enc "github.com/DataDog/sketches-go/ddsketch/encoding"
+	"github.com/DataDog/sketches-go/ddsketch/pb/sketchpb"
 	"github.com/DataDog/sketches-go/ddsketch/store"
 
 	"verif/harness/internal/core"
@@ -100,6 +102,9 @@ func runSteps(s *mon.Sketch, spec gen.StoreSpec, m *gen.Map, steps []raceStep) {
 	}
 }
 
+// raceRelation names how the second object of the last pair was obtained from the first (for the evidence).
+var raceRelation = "copy"
+
 // RacePair runs pair i. It returns a description of a final-state mismatch, or "".
 func RacePair(seed uint64, i int) (mismatch string, steps int) {
 	r := rng.New(rng.Hash(seed, rng.HashString("C14race"), uint64(i)))
@@ -119,15 +124,75 @@ func RacePair(seed uint64, i int) (mismatch string, steps int) {
 	sa := genRaceSteps(c, r.Fork(), m, spec, exact, vs.vals, r.Range(5, 40), budget)
 	sb := genRaceSteps(c, r.Fork(), m, spec, exact, vs.vals, r.Range(5, 40), budget)
 
+	// how the second object is obtained from the first: a copy, or any other operation after which the two are
+	// independent objects (receiver and argument of a merge, source and result of an identity conversion, a sketch
+	// and the one decoded from its encoding, a sketch and the one rebuilt from its protobuf message - the message
+	// handed over as it is, not through Marshal)
+	rel := r.Pick(4, 2, 2, 1, 2)
+	if exact && rel == 4 {
+		rel = 0
+	}
+	raceRelation = []string{"copy", "merge_receiver_and_argument", "identity_conversion", "decoded_from_encoding", "rebuilt_from_message"}[rel]
+	var eqMap *gen.Map
+	if mm, err := gen.NewMapGamma(m.Kind, m.Gamma, m.Offset); err == nil && mm.M.Equals(m.M) && r.Bool() {
+		eqMap = mm
+	}
+	var keptMsg *sketchpb.DDSketch // rel 4: the message stays in use next to the sketch it came from
+	derive := func(src mon.Sketch) mon.Sketch {
+		switch rel {
+		case 1:
+			b := mon.NewSketch(exact, m.M, spec)
+			if b.MergeWith(src) == nil {
+				return b
+			}
+		case 2:
+			mp := m
+			if eqMap != nil {
+				mp = eqMap
+			}
+			return src.ChangeMapping(mp.M, spec, 1)
+		case 3:
+			var buf []byte
+			src.I().Encode(&buf, false)
+			if d, err := mon.Decode(exact, buf, spec, nil); err == nil {
+				return d
+			}
+		case 4:
+			pb := src.P.ToProto()
+			if d, err := ddsketch.FromProtoWithStoreProvider(pb, spec.Provider()); err == nil {
+				keptMsg = pb
+				return mon.Sketch{P: d}
+			}
+		}
+		return src.Copy()
+	}
 	S := mon.NewSketch(exact, m.M, spec)
 	runSteps(&S, spec, m, h0)
-	cp := S.Copy()
+	cp := derive(S)
 
 	var wg sync.WaitGroup
 	start := make(chan struct{})
 	wg.Add(2)
 	go func() { defer wg.Done(); <-start; runSteps(&S, spec, m, sa) }()
-	go func() { defer wg.Done(); <-start; runSteps(&cp, spec, m, sb) }()
+	msg := keptMsg
+	go func() {
+		defer wg.Done()
+		<-start
+		if msg == nil {
+			runSteps(&cp, spec, m, sb)
+			return
+		}
+		// the message is read again (rebuilt into a throw-away sparse sketch) between the steps of the second object,
+		// while the sketch it came from is being written to by the other goroutine
+		for i := 0; i < len(sb); i += 4 {
+			j := i + 4
+			if j > len(sb) {
+				j = len(sb)
+			}
+			runSteps(&cp, spec, m, sb[i:j])
+			ddsketch.FromProtoWithStoreProvider(msg, store.SparseStoreConstructor)
+		}
+	}()
 	close(start)
 	wg.Wait()
 
@@ -135,14 +200,15 @@ func RacePair(seed uint64, i int) (mismatch string, steps int) {
 	TA := mon.NewSketch(exact, m.M, spec)
 	runSteps(&TA, spec, m, h0)
 	runSteps(&TA, spec, m, sa)
-	TB := mon.NewSketch(exact, m.M, spec)
-	runSteps(&TB, spec, m, h0)
+	T0 := mon.NewSketch(exact, m.M, spec)
+	runSteps(&T0, spec, m, h0)
+	TB := derive(T0)
 	runSteps(&TB, spec, m, sb)
 	if d := mon.Observe(TA, nil).Diff(mon.Observe(S, nil)); d != "" {
 		return "original differs from its sequential twin: " + d, len(h0) + len(sa) + len(sb)
 	}
 	if d := mon.Observe(TB, nil).Diff(mon.Observe(cp, nil)); d != "" {
-		return "copy differs from its sequential twin: " + d, len(h0) + len(sa) + len(sb)
+		return "the second object (" + raceRelation + ") differs from its sequential twin: " + d, len(h0) + len(sa) + len(sb)
 	}
 	return "", len(h0) + len(sa) + len(sb)
 }
@@ -237,13 +303,16 @@ func raceStorePair(c *core.Ctx, r *rng.Rng) (string, int) {
 // RaceMain is the entry point of the race-instrumented binary: vh-race race <seed> <from> <to>.
 func RaceMain(seed uint64, from, to int) int {
 	type res struct {
-		Pairs      int      `json:"pairs"`
-		Steps      int      `json:"steps"`
-		Mismatches []string `json:"mismatches"`
+		Pairs      int            `json:"pairs"`
+		Steps      int            `json:"steps"`
+		Mismatches []string       `json:"mismatches"`
+		Relations  map[string]int `json:"relations"`
 	}
-	var out res
+	out := res{Relations: map[string]int{}}
 	for i := from; i < to; i++ {
+		raceRelation = "store_copy"
 		mm, n := RacePair(seed, i)
+		out.Relations[raceRelation]++
 		out.Pairs++
 		out.Steps += n
 		if mm != "" && len(out.Mismatches) < 5 {
@@ -272,9 +341,10 @@ func raceC14(p *core.PostCtx) {
 	nproc := 12
 	per := (pairs + nproc - 1) / nproc
 	type result struct {
-		Pairs      int      `json:"pairs"`
-		Steps      int      `json:"steps"`
-		Mismatches []string `json:"mismatches"`
+		Pairs      int            `json:"pairs"`
+		Steps      int            `json:"steps"`
+		Mismatches []string       `json:"mismatches"`
+		Relations  map[string]int `json:"relations"`
 	}
 	results := make([]result, nproc)
 	errs := make([]error, nproc)
@@ -328,6 +398,9 @@ func raceC14(p *core.PostCtx) {
 		if errs[k] != nil {
 			p.Incon = append(p.Incon, fmt.Sprintf("race pass process %d failed: %v (see %s/race_%d.stderr)", k, errs[k], p.OutDir, k))
 		}
+		for rel, n := range results[k].Relations {
+			p.Counters["race.pairs."+rel] += int64(n)
+		}
 		total.Pairs += results[k].Pairs
 		total.Steps += results[k].Steps
 		total.Mismatches = append(total.Mismatches, results[k].Mismatches...)
@@ -379,18 +452,18 @@ func raceC14(p *core.PostCtx) {
 	}
 	sort.Strings(keys)
 	p.Extra["race_pass"] = map[string]interface{}{
-		"pairs_of_object_and_copy_hammered_concurrently": total.Pairs,
-		"operations_executed":                            total.Steps,
-		"data_race_reports":                              reports,
-		"distinct_reports_by_library_frames":             keys,
-		"final_state_mismatches":                         len(total.Mismatches),
-		"wall_s":                                         time.Since(start).Seconds(),
+		"pairs_of_independent_objects_hammered_concurrently": total.Pairs,
+		"operations_executed":                                total.Steps,
+		"data_race_reports":                                  reports,
+		"distinct_reports_by_library_frames":                 keys,
+		"final_state_mismatches":                             len(total.Mismatches),
+		"wall_s":                                             time.Since(start).Seconds(),
 	}
 	if reports > 0 {
 		w := filepath.Join(p.OutDir, "witness_data_race.json")
 		wj := map[string]interface{}{
 			"property": "C14", "seed": p.Seed, "tier": p.Tier, "index": -1, "class": "race:shared_mutable_state",
-			"message":       fmt.Sprintf("%d DATA RACE reports (%d distinct by library frames) between an object and its Copy", reports, len(distinct)),
+			"message":       fmt.Sprintf("%d DATA RACE reports (%d distinct by library frames) between two objects that must be independent (copy, merge receiver/argument, identity conversion, decoded, rebuilt from message)", reports, len(distinct)),
 			"distinct":      keys,
 			"first_report":  firstText,
 			"race_log":      firstFile,
@@ -398,7 +471,7 @@ func raceC14(p *core.PostCtx) {
 		}
 		b, _ := json.MarshalIndent(wj, "", " ")
 		os.WriteFile(w, b, 0o644)
-		p.Viol = append(p.Viol, core.PostViolation{Class: "race:shared_mutable_state", Msg: fmt.Sprintf("%d DATA RACE reports between independent objects (object and its Copy); first: %s", reports, firstLineOf(keys)), Replay: w})
+		p.Viol = append(p.Viol, core.PostViolation{Class: "race:shared_mutable_state", Msg: fmt.Sprintf("%d DATA RACE reports between independent objects (an object and its copy / merge receiver / conversion result / decoded or rebuilt twin); first: %s", reports, firstLineOf(keys)), Replay: w})
 	}
 	if len(total.Mismatches) > 0 {
 		w := filepath.Join(p.OutDir, "witness_race_mismatch.json")
